@@ -229,6 +229,12 @@ class Programs:
             if len(r['axes']) != len(r['shape']) or [len(ax['labels']) for ax in r['axes']] != r['shape']: return 'final array ill-formed'
             names = [ax['name'] for ax in r['axes']]
             if len(set(names)) != len(names) or any(not isinstance(x, str) or not x for x in names): return 'final dims %r not distinct non-empty strings' % names
+            last = c['ops'][-1]
+            if last[0] == 'set_axis' and isinstance(last[1], int) and 0 <= last[1] < len(r['axes']):
+                # an axis given new labels is the axis a new array with these labels has: same labels, same label type
+                ax = r['axes'][last[1]]
+                if not labs_eq(ax['labels'], last[2]): return 'set_axis: labels %r, expected %r' % (ax['labels'], last[2])
+                if ax['kind'] != last[3]: return 'set_axis(%r): the axis holds its labels as kind %r, a new axis with these labels as %r (it answers slices, tolerances, interpolation and alignment differently)' % (last[2], ax['kind'], last[3])
         return None
 
     @staticmethod
